@@ -7,11 +7,11 @@ export GOFLAGS=-mod=mod GOPROXY=off GOSUMDB=off
 w=/tmp/confirm-$$; rm -rf $w; mkdir -p $w; rsync -a --exclude .git /repo/ $w/repo/; cd $w/repo
 (cd $out/demo && find . -type f) > $w/demofiles
 (cd $out/demo && tar cf - .) | (cd $dest && tar xf -)
-echo "--- demo on clean tree"; go test -vet=off -count=1 -timeout 10m -run "$pat" $pkg 2>&1 | tail -4
+echo "--- demo on clean tree"; go test ${CONFIRM_TAGS:+-tags=$CONFIRM_TAGS} -vet=off -count=1 -timeout 10m -run "$pat" $pkg 2>&1 | tail -4
 if ! patch -p1 -s --dry-run < $out/patch.diff >/dev/null 2>&1; then echo "PATCH DOES NOT APPLY to current /repo"; cd /; rm -rf $w; exit 3; fi
 patch -p1 -s < $out/patch.diff
 echo "--- build with change"; go build ./... 2>&1 | tail -3 && echo build-ok
-echo "--- demo with change"; go test -vet=off -count=1 -timeout 10m -run "$pat" $pkg 2>&1 | tail -6
+echo "--- demo with change"; go test ${CONFIRM_TAGS:+-tags=$CONFIRM_TAGS} -vet=off -count=1 -timeout 10m -run "$pat" $pkg 2>&1 | tail -6
 while read f; do rm -f "$dest/$f"; done < $w/demofiles
 echo "--- existing suite with change (demo removed)"; go test -vet=off -count=1 -timeout 25m ./... 2>&1 | grep -v "no test files" | grep -v "^ok" | tail -5; echo suite-done
 cd /; rm -rf $w
